@@ -230,7 +230,7 @@ def _c09_runs(tier):
 
 PROPS["C09"] = dict(
     level="exploration", runs=_c09_runs,
-    rule="(width sweep) the data-movement, element-wise, observer, small-product, permutation, elimination, PLE/PLUQ, kernel, triangular-solve and triangular-inversion entry points (50 of the 81) on views of EVERY width 1..130 plus 191..320 (heavier ones: a residue subset in quick) (every residue of the column count modulo 64), rows {6,33} (thorough also 1,70), 4 placements incl. view of a view, all operands / first / last operand as views; (registry) op registry (81 entry points: data movement, row/column/bit primitives, permutation application, observers, every multiplication route, echelon forms, PLE/PLUQ, TRSM x4, inversion, solve, kernel, table construction) x its shapes (view widths mod 64 in {0,1,33,63,..}) x EVERY non-empty subset of matrix operands being a window x placement alphabet (row offset {0,1,3}, word offset {0,1,2} incl. odd = 8-mod-16 rows, trailing words {0,1,2}, trailing rows {0,2}; 16 placements quick / all 54 thorough) x surrounding fill {ones, pseudo-random} x 2 data sets; oracle is differential: same call on standalone copies; non-trivial = every case (a window is involved); distinct = distinct (op, shape, window mask, placement, fill, data)",
+    rule="(width sweep) the data-movement, element-wise, observer, small-product, permutation, elimination, PLE/PLUQ, kernel, triangular-solve and triangular-inversion entry points (50 of the 82) on views of EVERY width 1..130 plus 191..320 (heavier ones: a residue subset in quick) (every residue of the column count modulo 64), rows {6,33} (thorough also 1,70), 4 placements incl. view of a view, all operands / first / last operand as views; (registry) op registry (82 entry points: data movement, row/column/bit primitives, permutation application, observers, every multiplication route, echelon forms, PLE/PLUQ, TRSM x4, inversion, solve, kernel, table construction) x its shapes (view widths mod 64 in {0,1,33,63,..}) x EVERY non-empty subset of matrix operands being a window x placement alphabet (row offset {0,1,3}, word offset {0,1,2} incl. odd = 8-mod-16 rows, trailing words {0,1,2}, trailing rows {0,2}; 16 placements quick / all 54 thorough) x surrounding fill {ones, pseudo-random} x 2 data sets; oracle is differential: same call on standalone copies; non-trivial = every case (a window is involved); distinct = distinct (op, shape, window mask, placement, fill, data)",
     level_text="Bounded-exhaustive differential exploration of window operands: every operation x every subset of operands placed as views at every placement class with dirty surroundings; view contents, scalar results and returned matrices must equal those of the same call on standalone copies, every parent bit outside the view (including bits sharing the last word) must be unchanged, read-only operands untouched, and no sanitizer report (odd word offsets exercise the 8-mod-16 vector paths).",
     level_note="Bounded: 2 data sets and 3-13 shapes per operation, dimensions <= 704. The reference is the library itself on standalone operands (whose correctness is the subject of C01-C08, C13, C17).",
     technique="bounded-exhaustive enumeration of operand placements on the real code with a differential oracle (standalone copies) and parent snapshots",
@@ -246,7 +246,7 @@ def _c10_runs(tier):
 
 PROPS["C10"] = dict(
     level="exploration", runs=_c10_runs,
-    rule="(views) every op of the registry with each subset of its operands placed as views into parents filled with ones / pseudo-random bits (placements as in C09): returned value, result matrix and final operand values equal the call on standalone copies and every OWNED operand / result keeps zero padding; (environment) for every op of the registry (81 entry points) x its shapes x 2 data sets, enumerated environment deviations: (i) ALL allocations returning 0xFF-filled / patterned memory, and EACH SINGLE allocation i = 1..N deviating (N = requests counted in the baseline run; capped at 48 per case in quick, uncapped thorough); (ii) the block cache pre-loaded with dirtied blocks of exactly the sizes the op requests; (iii) every ordered pair (thorough: triple) of a 28-call menu run in one process, the last call compared with the same call alone; (iv) prior destination content in {zeros, ones, PR} for every overwriting op; the outcome digest covers every operand, the scalar result and the returned matrix; raw padding of every owned matrix is inspected; non-trivial = every case; distinct = distinct (op, shape, data, deviation)",
+    rule="(views) every op of the registry with each subset of its operands placed as views into parents filled with ones / pseudo-random bits (placements as in C09): returned value, result matrix and final operand values equal the call on standalone copies and every OWNED operand / result keeps zero padding; (environment) for every op of the registry (82 entry points) x its shapes x 2 data sets, enumerated environment deviations: (i) ALL allocations returning 0xFF-filled / patterned memory, and EACH SINGLE allocation i = 1..N deviating (N = requests counted in the baseline run; capped at 48 per case in quick, uncapped thorough); (ii) the block cache pre-loaded with dirtied blocks of exactly the sizes the op requests; (iii) every ordered pair (thorough: triple) of a 28-call menu run in one process, the last call compared with the same call alone; (iv) prior destination content in {zeros, ones, PR} for every overwriting op; the outcome digest covers every operand, the scalar result and the returned matrix; raw padding of every owned matrix is inspected; non-trivial = every case; distinct = distinct (op, shape, data, deviation)",
     level_text="Deviation-bounded exhaustive exploration of the environment: the allocator is an adversary whose answers (memory content per allocation, recycled blocks) are enumerated one deviation at a time and all-at-once, call histories are enumerated as ordered pairs/triples, and every outcome must equal the one in the default environment.",
     level_note="Bounded: one deviation at a time or all at once (not arbitrary subsets); histories of length <= 2 (3). calloc keeps its zeroing semantics. The allocation histories of the caches themselves are explored as a state graph in C14.",
     technique="deviation-bounded exhaustive enumeration of allocator answers and call histories on the real code (differential against the baseline environment)",
@@ -266,7 +266,7 @@ def _c11_runs(tier):
 
 PROPS["C11"] = dict(
     level="exploration", runs=_c11_runs,
-    rule="op registry (81 entry points) x all its shapes x 2 data sets x {all operands owned; each single operand a view at 6 placements (odd word offsets = 8-mod-16 rows) with EVERY parent word outside the view's word rectangle ASan-poisoned}, in builds {SSE2 baseline flags, no SSE2, thread-safe (header cache off: every header is a heap block, so leaks are allocator-balance violations)}; plus, in the min-cache build, every routine built on block-recursive PLE (PLE, PLUQ, PLUQ echelon forms, hybrid, solve, kernel) over the REC rank-profile family on shapes whose rows end at the end of the allocation; plus 25 checked wrappers x 5 base sizes x every operand dimension perturbed by -1/+1 (and negative cutoffs, too-small destinations, wrong permutation lengths), each in a forked child whose operands live in shared memory; oracle: ASan/UBSan silent (bounds, use-after-free, shift, signed overflow, alignment), allocator and header balance, child terminated by m4ri_die + SIGABRT with all operand bytes unchanged; the sanitizers are also active in every other BEX check (C01-C10, C13, C17-C20); non-trivial = every case; distinct = distinct (op, shape, data, placement) / (wrapper, size, perturbation)",
+    rule="op registry (82 entry points) x all its shapes x 2 data sets x {all operands owned; each single operand a view at 6 placements (odd word offsets = 8-mod-16 rows) with EVERY parent word outside the view's word rectangle ASan-poisoned}, in builds {SSE2 baseline flags, no SSE2, thread-safe (header cache off: every header is a heap block, so leaks are allocator-balance violations)}; plus, in the min-cache build, every routine built on block-recursive PLE (PLE, PLUQ, PLUQ echelon forms, hybrid, solve, kernel) over the REC rank-profile family on shapes whose rows end at the end of the allocation; plus 25 checked wrappers x 5 base sizes x every operand dimension perturbed by -1/+1 (and negative cutoffs, too-small destinations, wrong permutation lengths), each in a forked child whose operands live in shared memory; oracle: ASan/UBSan silent (bounds, use-after-free, shift, signed overflow, alignment), allocator and header balance, child terminated by m4ri_die + SIGABRT with all operand bytes unchanged; the sanitizers are also active in every other BEX check (C01-C10, C13, C17-C20); non-trivial = every case; distinct = distinct (op, shape, data, placement) / (wrapper, size, perturbation)",
     level_text="Bounded-exhaustive exploration with sanitizer oracles: every registered operation on every shape with operands placed so that a one-word overrun of a row lands in poisoned memory, in SIMD and scalar builds, and every single-dimension perturbation of the checked wrappers executed in an attributable child process.",
     level_note="Bounded shapes (<= 704 columns). 'pointer-overflow' (NULL + 0 on empty matrices) is not part of the statement and is disabled. Accesses to the operand's own stride-padding word are not flagged.",
     technique="bounded-exhaustive enumeration on the real code with AddressSanitizer/UBSan, poisoned surroundings and fork-per-call fate classification as oracles",
@@ -349,7 +349,7 @@ def _c20_runs(tier):
 
 PROPS["C20"] = dict(
     level="fault_enumeration", runs=_c20_runs,
-    rule="(non-initial states) create / window / 8 representative operations started with exactly 64, 128, 63, 65 (thorough also 127, 192) matrix headers in use, so that the first header request of the scenario allocates a new header-cache block, takes the last slot of a block or the first of a fresh one; (fresh state) scenarios = every operation of the registry (81 entry points: create/copy, window, every multiplication route, echelon forms, PLE/PLUQ, TRSM, inversion x3, solve, kernel, transpose, permutation application, ...) x 3 shapes (all shapes thorough) + create for 6 size classes (incl. 1 MiB+ blocks and zero-area), window, permutation objects, mzd_from_str, PNG write, PNG read, JCF read, DJB compile+apply (3 sizes), in the default and the thread-safe (caches off) build; for each scenario N = allocation requests counted in a fault-free child, and for EVERY i in 1..N a forked child in which request i fails (posix_memalign -> ENOMEM, malloc/calloc/realloc -> NULL); oracle: child dies by SIGABRT after m4ri_die with a diagnostic, never returns normally, never a sanitizer report or SIGSEGV; 'evaluations' = fault-injected children; non-trivial = an allocation actually failed; distinct = distinct failing call sites (return addresses)",
+    rule="(non-initial states) create / window / 8 representative operations started with exactly 64, 128, 63, 65 (thorough also 127, 192) matrix headers in use, so that the first header request of the scenario allocates a new header-cache block, takes the last slot of a block or the first of a fresh one; (fresh state) scenarios = every operation of the registry (82 entry points: create/copy, window, every multiplication route, echelon forms, PLE/PLUQ, TRSM, inversion x3, solve, kernel, transpose, permutation application, ...) x 3 shapes (all shapes thorough) + create for 6 size classes (incl. 1 MiB+ blocks and zero-area), window, permutation objects, mzd_from_str, PNG write, PNG read, JCF read, DJB compile+apply (3 sizes), in the default and the thread-safe (caches off) build; for each scenario N = allocation requests counted in a fault-free child, and for EVERY i in 1..N a forked child in which request i fails (posix_memalign -> ENOMEM, malloc/calloc/realloc -> NULL); oracle: child dies by SIGABRT after m4ri_die with a diagnostic, never returns normally, never a sanitizer report or SIGSEGV; 'evaluations' = fault-injected children; non-trivial = an allocation actually failed; distinct = distinct failing call sites (return addresses)",
     level_text="Exhaustive single-fault enumeration: every allocation request of every scenario is made to fail in its own child process and the fate of that process is classified.",
     level_note="Covers allocation requests issued by m4ri's own code (through the five libc entry points reached by --wrap); libpng's and zlib's internal allocations are outside the wrapper and outside the claim. One failure per run (no multiple faults).",
     technique="exhaustive single-fault enumeration (i-th allocation fails) on the real code in forked children with fate classification",
